@@ -10,7 +10,7 @@ import subprocess
 import sys
 
 VERIF = os.path.dirname(os.path.dirname(os.path.abspath(__file__)))
-REPO = '/repo'
+REPO = os.environ.get('MATRIX_REPO', '/repo')
 
 
 def sh(cmd, cwd=None, timeout=7200):
@@ -51,7 +51,7 @@ def main():
         try:
             results = meta.get('detection', {})
             for cid in (only if only else [pid] + also):
-                r = sh('./check %s --tier %s' % (cid, tier), cwd=VERIF)
+                r = sh('VERIF_REPO=%s ./check %s --tier %s' % (REPO, cid, tier), cwd=VERIF)
                 sigs = [l.strip().split(' :: ')[0] for l in r.stdout.splitlines() if l.startswith('  C')]
                 results['%s:%s' % (cid, tier)] = {'rc': r.returncode, 'new_signatures': sigs[:8]}
                 print('%-8s %s %-8s rc=%d %s' % (s, cid, tier, r.returncode, '; '.join(sigs[:3])[:200]))
